@@ -8,6 +8,10 @@ import vf
 vf.use_repo()
 from ak.mtd_sql import SqlMethod  # noqa: E402
 try:
+    from ak.mcaller_sql import MCallerSql, method_sql  # noqa: E402
+except Exception:  # pragma: no cover
+    MCallerSql = method_sql = None
+try:
     from ak.mcaller_sql import SqlMethodT  # noqa: E402
 except Exception:  # pragma: no cover
     SqlMethodT = None
@@ -299,13 +303,35 @@ def method(kind):
         elif kind == "count":
             # an aggregate without GROUP BY always gives exactly one row
             _METHODS[kind] = SqlMethod("SELECT count(*) AS cnt, max(id) AS top FROM t")
+        elif kind == "odd-names":
+            _METHODS[kind] = SqlMethod('SELECT id, n AS "class", s AS "2 s" FROM t', order_by="id")
         else:
             _METHODS[kind] = SqlMethod("SELECT id, n, s FROM t", order_by="id")
     return _METHODS[kind]
 
 
+def sql_caller(conn):
+    """the application's method caller for its database: it owns the connection, its methods are the queries"""
+    if 'cls' not in _CALLER:
+        class VfSqlCaller(MCallerSql):
+            @method_sql
+            def rows(self, m, *args, **kw):
+                return m.list(self.get_sql_conn(), *args, **kw)
+        _CALLER['cls'] = VfSqlCaller
+    return _CALLER['cls'](conn) if len(conn.log) % 2 else _CALLER['cls'](db_connector=lambda c: c, connector_args=[conn])
+
+
+_CALLER = {}
+
+
 def table_method(m):
     key = "table-m" if m is not None else "table-sql"
+    if m == "dups":
+        # the statement selects some columns twice (as a join does): the table has to invent names for them
+        key = "table-dups"
+        if key not in _METHODS:
+            _METHODS[key] = SqlMethodT("SELECT t.id, t.n, t.s, t.id, t.n, t.id AS id_1 FROM t", order_by="t.id")
+        return _METHODS[key]
     if key not in _METHODS:
         _METHODS[key] = SqlMethodT(m) if m is not None else SqlMethodT("SELECT id, n, s FROM t", order_by="id")
     return _METHODS[key]
@@ -373,9 +399,11 @@ def run_case(ctx, rng):
     if rng.random() < 0.05:
         # a call with a malformed condition is refused (ValueError) - and leaves nothing behind in the
         # long-lived method object
+        bad = rng.choice([('n', 'BETWEEN', 3), ('n', 'IN', 5), ('n', 'IS NULL', 3), ('s', 'LIKE', 5),
+                          ('s', 'NOT LIKE', None), 42, ('n',), ('n', '=', 1, 2), {'n': 1}, ('n', 'IS NOT NULL', 0)])
         try:
-            method("rows").list(conn, ('n', 'BETWEEN', 3))
-            ctx.violation("unsupported-operation-accepted", {"op": "BETWEEN"}, case)
+            method("rows").list(conn, bad)
+            ctx.violation("unsupported-operation-accepted", {"condition": repr(bad)}, case)
         except ValueError:
             ctx.count("malformed_conditions_refused")
         except Exception as err:
@@ -435,6 +463,10 @@ def run_case(ctx, rng):
             elif mode == "table":
                 # the same query through the wrapper that presents the records as a printable table
                 mt = table_method(m if rng.random() < 0.5 else None)
+                if rng.random() < 0.2 and order in (None, "id"):
+                    mt = table_method("dups")
+                    call_kw.pop('_order_by', None)
+                    ctx.count("tables_over_repeated_column_names")
                 sub = rng.choice(["list", "list", "one", "one_or_none"])
                 ctx.count("queries_through_SqlMethodT")
                 try:
@@ -452,11 +484,25 @@ def run_case(ctx, rng):
             elif mode == "scalars":
                 got = list(m.list(conn, *args, _as_scalars=True, **call_kw))
             else:
-                recs = m.list(conn, *args, **call_kw)
-                got = [r.id for r in recs]
+                via = rng.random()
+                if via < 0.12:
+                    # the selected columns have names that cannot be attribute names: the records are plain tuples
+                    recs = method("odd-names").list(conn, *args, **call_kw)
+                    ctx.count("queries_whose_records_are_plain_tuples")
+                elif via < 0.24 and MCallerSql is not None:
+                    # the query is a method of the application's sql method caller, which owns the connection
+                    recs = sql_caller(conn).rows(m, *args, **call_kw)
+                    ctx.count("queries_through_a_method_caller")
+                elif via < 0.30 and MCallerSql is not None and not args and not call_kw:
+                    # ... or an ad-hoc statement handed to the method caller, answered with a table
+                    recs = [tuple(r) for r in sql_caller(conn)("SELECT id, n, s FROM t ORDER BY id").r]
+                    ctx.count("queries_through_a_method_caller")
+                else:
+                    recs = m.list(conn, *args, **call_kw)
+                got = [r[0] for r in recs]
                 for r in recs:
-                    src = rows[r.id]
-                    if (r.n, r.s) != (src['n'], src['s']):
+                    src = rows[r[0]]
+                    if (r[1], r[2]) != (src['n'], src['s']) or (hasattr(r, 'n') and (r.id, r.n, r.s) != tuple(r)):
                         ctx.violation("record-fields-differ-from-row", {"got": tuple(r)}, case)
             if got is not None:
                 if order is None:
